@@ -188,7 +188,7 @@ static void viol (const char *prop, const char *sig)
 {
 	g_viol_in_run++;
 	if (G.codec == 5 && strcmp (prop, "MACHINERY")) prop = "C16";	/* every clause about the 2D codec belongs to C16 */
-	if (strstr (g_case, " ops=P")) { char s2[240]; snprintf (s2, sizeof s2, "%s|after-an-earlier-session", sig); vf_viol (prop, s2, "%s", g_case); return; }	/* own signature: these reproduce alone, cases that depend on what the worker ran before do not */
+	if (strstr (g_case, " ops=P") || strstr (g_case, " ops=X")) { char s2[240]; snprintf (s2, sizeof s2, "%s|after-an-earlier-session", sig); vf_viol (prop, s2, "%s", g_case); return; }	/* own signature: these reproduce alone, cases that depend on what the worker ran before do not */
 	vf_viol (prop, sig, "%s", g_case);
 }
 
@@ -978,14 +978,15 @@ static int parse_spec (const char *s, unsigned char *mem)
 /* prelude "P<dr>": an earlier decoder session of the same codec, field, k and symbol length but with G.r + dr repair symbols has
  * rebuilt a lost source symbol in this process and was released (what a receiver does block after block; whatever it leaves
  * behind for the next session - a cached context, a matrix - must not depend on the old n). No oracle: it only sets the stage. */
-static void prelude_session (int dr)
+static void prelude_session (int dr, int otherfield)	/* otherfield: codec 2 only, the earlier session used the other field size (m = 4 <-> 8) */
 {
-	of_session_t *s = NULL; int r = G.r + dr, i; void **st;
+	of_session_t *s = NULL; int r = G.r + dr, i, m = G.m; void **st;
 	of_codec_id_t id = G.codec == 1 ? OF_CODEC_REED_SOLOMON_GF_2_8_STABLE : OF_CODEC_REED_SOLOMON_GF_2_M_STABLE;
 	if (r < 1 || (G.codec != 1 && G.codec != 2)) return;
+	if (otherfield) { if (G.codec != 2) return; m = G.m == 4 ? 8 : 4; if (m == 4 && G.k + r > 15) return; }
 	if (of_create_codec_instance (&s, id, OF_DECODER, 0) != OF_STATUS_OK || !s) return;
 	if (G.codec == 1) { of_rs_parameters_t p; memset (&p, 0, sizeof p); p.nb_source_symbols = (UINT32) G.k; p.nb_repair_symbols = (UINT32) r; p.encoding_symbol_length = (UINT32) G.len; if (of_set_fec_parameters (s, (of_parameters_t *) &p) != OF_STATUS_OK) { of_release_codec_instance (s); return; } }
-	else { of_rs_2_m_parameters_t p; memset (&p, 0, sizeof p); p.nb_source_symbols = (UINT32) G.k; p.nb_repair_symbols = (UINT32) r; p.encoding_symbol_length = (UINT32) G.len; p.m = (UINT16) G.m; if (of_set_fec_parameters (s, (of_parameters_t *) &p) != OF_STATUS_OK) { of_release_codec_instance (s); return; } }
+	else { of_rs_2_m_parameters_t p; memset (&p, 0, sizeof p); p.nb_source_symbols = (UINT32) G.k; p.nb_repair_symbols = (UINT32) r; p.encoding_symbol_length = (UINT32) G.len; p.m = (UINT16) m; if (of_set_fec_parameters (s, (of_parameters_t *) &p) != OF_STATUS_OK) { of_release_codec_instance (s); return; } }
 	for (i = 1; i < G.k; i++) of_decode_with_new_symbol (s, CW[i], (UINT32) i);
 	of_decode_with_new_symbol (s, CW[G.k + r - 1], (UINT32) (G.k + r - 1));
 	if (!of_is_decoding_complete (s)) of_finish_decoding (s);
@@ -1007,7 +1008,8 @@ static void run_scenario (const char *ops)
 	snprintf (g_case, sizeof g_case, "%s %s ops=%s", c, r, ops);
 	memcpy (vf_slot (), g_case, sizeof g_case);
 	vf_stat_add (st_exec, 1);
-	if (ops[0] == 'P') prelude_session (atoi (ops + 1));
+	if (ops[0] == 'P') prelude_session (atoi (ops + 1), 0);
+	if (ops[0] == 'X') prelude_session (atoi (ops + 1), 1);
 	w = world_new ();
 	if (!world_open (w)) { world_close (w); free (mem); return; }
 	if (!strncmp (ops, "Q,", 2) && ops[2]) { w->quiet = 1; g_mute = 1; }
@@ -1274,7 +1276,8 @@ static void build_large (int thorough, const char *which)
 			for (k = 1; k <= 250; k += thorough ? 1 : (k < 24 ? 1 : 5)) {
 				c0 = NCF; add_cfg (codec, 8, k, 5, 0, 0, 4, 0, 0, 0);
 				add_scen (c0, "P-2,Rx%d/%d,F", k / 2, k + 4); add_scen (c0, "P-2,Sx0/%d,F", k + 3); add_scen (c0, "P-4,Bw5+%d", k);
-				if (codec == 2 && k <= 10) { c0 = NCF; add_cfg (2, 4, k, 5, 0, 0, 4, 0, 0, 0); add_scen (c0, "P-2,Rx%d/%d,F", k / 2, k + 4); add_scen (c0, "P-3,Sx0/%d,F", k + 3); }
+				if (codec == 2 && k <= 10) { c0 = NCF; add_cfg (2, 4, k, 5, 0, 0, 4, 0, 0, 0); add_scen (c0, "P-2,Rx%d/%d,F", k / 2, k + 4); add_scen (c0, "P-3,Sx0/%d,F", k + 3); add_scen (c0, "X0,Rx%d/%d,F", k / 2, k + 4); add_scen (c0, "X-2,Sx0/%d,F", k + 3); add_scen (c0, "X0,Ba-0"); }
+				if (codec == 2 && k <= 10) { add_scen (c0 - 1, "X0,Rx%d/%d,F", k / 2, k + 4); add_scen (c0 - 1, "X-2,Sx0/%d,F", k + 3); add_scen (c0 - 1, "X0,Ba-0"); }	/* the m=8 configuration of this k after an m=4 session */
 			}
 	}
 	if (strstr (which, "rs")) {
